@@ -96,6 +96,13 @@ FAULTS = [
     ("accumulator-expected", "compile", "error", "invalid-addressing", ["ldf (r0), 5"]),
     ("accumulator-r6", "compile", "error", "invalid-addressing", ["ldf (r0), r6"]),
     ("accumulator-ac4", "compile", "error", "invalid-addressing", ["ldf (r0), ac4"]),
+    # severity boundaries that belong to other properties' specs (C01: which accumulators exist; C11: extern names) but whose CURRENT
+    # severity the catalogue pins: if such a diagnostic silently stops being an error, the self-test reports it
+    ("fp-register-6-as-accumulator", "compile", "error", "implicit-accumulator", ["tstf r6"]),
+    ("fp-register-7-as-accumulator", "compile", "error", "implicit-accumulator", ["tstf r7"]),
+    ("fp-percent-6-forward", "eval", "error", "implicit-accumulator", ["tstf %fn{u}", "fn{u} = 6"]),
+    ("extern-announced-never-defined", "eval", "error", "undefined-symbol", [".extern ex{u}", ".word ex{u}"]),
+    ("extern-announced-never-defined-operand", "eval", "error", "undefined-symbol", [".extern ey{u}", "mov ey{u}, r0"]),
     ("duplicate-label", "compile", "error", "duplicate-symbol", ["dl{u}: nop", "dl{u}: nop"]),
     ("duplicate-constant", "compile", "error", "duplicate-symbol", ["dc{u} = 1", "dc{u} = 2"]),
     ("duplicate-local", "compile", "error", "duplicate-symbol", ["dx{u}: 1: nop", "1: nop"]),
@@ -164,6 +171,7 @@ WARNINGS = [
     ("meta-typo", ["word 5"]),
     ("legacy-deferred", ["clr @r0"]),
     ("implicit-index", ["clr @(r0)"]),
+    ("implicit-accumulator", ["tstf r5"]),       # the last register that is only a warning
     ("missing-newline", ["nop nop"]),
     ("unexpected-newline", [".blkb", "2"]),
 ]
